@@ -298,6 +298,20 @@ def c14(tier, seed):
     mod, cfg, inv, props = model(depth + 1, "offset")
     explore.explore_and_replay(rep, "exchange-chain-offset", mod, cfg, ("harness.exchange_check", "replay_chunk"),
                                {"variant": "offset"}, set(CLAUSE_PROPS), inv, props, chunk=500)
+    # no depth bound: the abstraction `fview` (books as they show, last history entry, clock) has finitely many values, TLC
+    # runs to the fixpoint and the state invariants hold after histories of any length over this data
+    v = VARIANTS["base"]
+    defs = {"Contracts": {"A", "F1", "F2"}, "ChainSeq": ["F1", "F2"], "ChainLtd": [3, 6], "ChainOff": chain_off("base"),
+            "Bids": {8, 12}, "Spreads": {0, 2}, "Times": {2, 3, 6}, "QuoteKeys": {"A", "F1", "CH"}}
+    res = tlc.run("MC", tlagen.mc_module("MC", "Exchange", defs),
+                  tlagen.cfg(defs, {"MaxDepth": 1000000}, invariants=inv, view="fview"), workers=8, tag="C14-fixpoint", timeout=3000)
+    try:
+        rep.add_model("exchange-unbounded (fixpoint of the abstraction, no depth bound)", res, inv, [])
+        if res.violated:
+            rep.violation("model:" + res.violated, "model/fixpoint/%s" % res.violated,
+                          "TLC: %s violated in the unbounded exploration" % res.violated, {"tlc": (res.trace or "")[:3000]})
+    finally:
+        tlc.rm_workdir(res.workdir)
     n, length = (400, 25) if tier == "quick" else (4000, 40)
     traces = record_traces(n, length, seed)
     rep.sample({"recorded_trace": [{k: v for k, v in o.items() if k != "view"} for o in traces[0]["ops"][:8]]})
